@@ -284,7 +284,7 @@ Lemma legendre_bonnet_34 :
   length (P 1) = 2%nat /\ poly_eq (P 1) [0; 1] /\
   forall i, (2 <= i < 34)%nat -> bonnet_stmt i.
 Proof.
-  assert (H := legendre_all). apply andb_true_iff in H. destruct H as [H1 H2].
+  assert (H := legendre_all). apply andb_prop in H. destruct H as [H1 H2].
   apply legendre_head_check_sound in H1. destruct H1 as (A & B & C & D & E).
   repeat (split; [assumption|]).
   intros i Hi. apply bonnet_check_sound. apply (forallb_seq _ _ _ H2). lia.
@@ -309,7 +309,10 @@ Lemma T_close :
   mat_dims T_left 33 33 /\ mat_dims T_right 33 33 /\
   forall j, (j < 33)%nat -> T_stmt T_left (-1 # 1) j /\ T_stmt T_right 1 j.
 Proof.
-  assert (H := T_all). rewrite !andb_true_iff in H. destruct H as [[[H1 H2] H3] H4].
+  assert (H := T_all).
+  (* no [rewrite !andb_true_iff] here: on closed terms it would unfold the checks *)
+  apply andb_prop in H. destruct H as [H H4]. apply andb_prop in H. destruct H as [H H3].
+  apply andb_prop in H. destruct H as [H1 H2].
   split; [apply mat_dimsb_sound; exact H1|]. split; [apply mat_dimsb_sound; exact H2|].
   intros j Hj. split; apply T_check_sound.
   - apply (forallb_seq _ _ _ H3). lia.
@@ -329,7 +332,9 @@ Qed.
 Lemma scalars_ok : scalars_stmt.
 Proof.
   assert (H := scalars_all). unfold scalars_check in H. unfold scalars_stmt.
-  rewrite !andb_true_iff in H. destruct H as [[[[[[H1 H2] H3] H4] H5] H6] H7].
+  apply andb_prop in H. destruct H as [H H7]. apply andb_prop in H. destruct H as [H H6].
+  apply andb_prop in H. destruct H as [H H5]. apply andb_prop in H. destruct H as [H H4].
+  apply andb_prop in H. destruct H as [H H3]. apply andb_prop in H. destruct H as [H1 H2].
   split; [apply Qeq_bool_eq; exact H1|]. split; [apply Qeq_bool_eq; exact H2|].
   split; [apply Z.eqb_eq; exact H3|]. split; [apply Qltb_lt; exact H4|].
   split; [apply Nat.eqb_eq; exact H5|]. split; [apply Nat.eqb_eq; exact H6|].
